@@ -8,7 +8,8 @@ Property C06 — write-back cache: nothing reaches the remote before Commit, eve
 
 Stated over the executable model `Goat/Model/Cache.lean` (every method of `fscache.Cache` with the Go control
 flow, `fshelper.Copier` / `Copy` / `SubFS`, `Commit` with the four Go map iteration orders as parameters and an
-injected remote failure `failAt = some k`: the k-th error-capable remote call of that Commit fails).
+injected remote failure `failAt = some k`: the k-th error-capable remote call of that Commit fails — `Remove`,
+`RemoveAll`, `MkdirAll`, `Writer`, and the `Write` / `Close` calls on the remote's writers).
 "Applying an operation directly" is the point-wise specification `Goat/Spec/FS.lean` (`FS.Step`); its executable
 twin is `MemFS.step` on a second tree (`directStep`, `directRun`, `Sim`), which refines it (`direct_is_spec`,
 from `Goat.C01.memfs_refines`).
@@ -79,19 +80,29 @@ theorem commit_changes_only_remote (rm rma mk wr : List Bytes) (fa : Option Nat)
 
 /-- "If the remote fails during Commit the failure is reported", full strength: for every state, every
 iteration order and every position `k`, if the k-th error-capable remote call of the Commit was made (so it
-failed), Commit did not return nil. -/
+failed), Commit did not return nil.  The calls are `Remove`, `RemoveAll`, `MkdirAll`, `Writer`, and every `Write` and
+the `Close` on a writer the remote handed out (a failure in the middle of a transfer). -/
 theorem commit_fail_reported (rm rma mk wr : List Bytes) (k : Nat) (s : Cache.State)
     (hfired : k < (commitWith rm rma mk wr (some k) s).2.1) :
     (commitWith rm rma mk wr (some k) s).2.2 = false :=
   Cache.commit_fail_reported rm rma mk wr k s hfired
 
--- two writes = four remote calls; failing the third one is reported, failing a seventh one does not happen
+-- two writes = eight remote calls (MkdirAll, Writer, Write, Close each); a failing Write (call 2), a failing Close
+-- (call 7) are reported; a tenth call does not happen
 example :
     (commit (some 2) (run (State.new Node.empty) [(.cache, .writeFile [97] [1]), (.cache, .writeFile [98] [2])])).2
       = (3, false) := by decide
 example :
     (commit (some 7) (run (State.new Node.empty) [(.cache, .writeFile [97] [1]), (.cache, .writeFile [98] [2])])).2
-      = (4, true) := by decide
+      = (8, false) := by decide
+example :
+    (commit (some 9) (run (State.new Node.empty) [(.cache, .writeFile [97] [1]), (.cache, .writeFile [98] [2])])).2
+      = (8, true) := by decide
+-- a failing Write leaves the remote file created but empty; the retry completes it
+example :
+    abs (commit (some 2) (run (State.new Node.empty) [(.cache, .writeFile [97] [1])])).1.remote [[97]] = some (.file [])
+    ∧ abs (commit none (commit (some 2) (run (State.new Node.empty) [(.cache, .writeFile [97] [1])])).1).1.remote [[97]]
+        = some (.file [1]) := by decide
 
 /-! ### 3. The Go map iteration order does not matter -/
 
